@@ -230,3 +230,10 @@ package state
 //@   props C18
 //@   requires m != nil && msg != nil && m.cfg != nil
 //@   ensures cnt(applyControlCall) == 1
+
+// All: a copy taken under the read lock (the copy's contents are not specified
+// here: range over a map is abstracted to an arbitrary key order).
+//@ func (*MemoryStore[T]).All
+//@   props C03 C18
+//@   requires s != nil
+//@   ensures [C18.store.all.fresh] result != nil
